@@ -438,6 +438,9 @@ class CuckooFilter:
         if error_rate is not None:
             self._error_rate = error_rate
             self._fingerprint_size = self._calc_fingerprint_size()
+        else:
+            # otherwise it is the error rate of the geometry the filter has now
+            self._error_rate = float(self._calc_error_rate())
 
     def _check_if_present(self, idx_1, idx_2, fingerprint):
         """wrapper for checking if fingerprint is already inserted"""
